@@ -99,6 +99,8 @@ func CloseStatus(err error) StatusCode {
 // complete.
 func (c *Conn) Close(code StatusCode, reason string) (err error) {
 	defer errd.Wrap(&err, "failed to close WebSocket")
+	defer func() { c.vErr("CloseRet", err, 0) }()
+	c.vEv("CloseCall", int64(code), int64(len(reason)), 0, 0)
 
 	if !c.casClosing() {
 		err = c.waitGoroutines()
@@ -132,6 +134,8 @@ func (c *Conn) Close(code StatusCode, reason string) (err error) {
 // Use when you do not want the overhead of the close handshake.
 func (c *Conn) CloseNow() (err error) {
 	defer errd.Wrap(&err, "failed to immediately close WebSocket")
+	defer func() { c.vErr("CloseNowRet", err, 0) }()
+	c.vEv("CloseNowCall", 0, 0, 0, 0)
 
 	if !c.casClosing() {
 		err = c.waitGoroutines()
@@ -183,10 +187,12 @@ func (c *Conn) writeClose(code StatusCode, reason string) error {
 		}
 	}
 
+	c.vErr("WcBegin", err, int64(code))
 	ctx, cancel := context.WithTimeout(context.Background(), time.Second*5)
 	defer cancel()
 
 	err = c.writeControl(ctx, opClose, p)
+	c.vErr("WcRet", err, int64(code))
 	// If the connection closed as we're writing we ignore the error as we might
 	// have written the close frame, the peer responded and then someone else read it
 	// and closed the connection.
@@ -202,9 +208,11 @@ func (c *Conn) waitCloseHandshake() error {
 
 	err := c.readMu.lock(ctx)
 	if err != nil {
+		c.vErr("WchLockFail", err, 0)
 		return err
 	}
 	defer c.readMu.unlock()
+	c.vEv("WchLocked", c.msgReader.payloadLength, 0, 0, 0)
 
 	for i := int64(0); i < c.msgReader.payloadLength; i++ {
 		_, err := c.br.ReadByte()
@@ -231,10 +239,13 @@ func (c *Conn) waitCloseHandshake() error {
 func (c *Conn) waitGoroutines() error {
 	t := time.NewTimer(time.Second * 15)
 	defer t.Stop()
+	c.vEv("WgBegin", 0, 0, 0, 0)
+	defer c.vEv("WgEnd", 0, 0, 0, 0)
 
 	select {
 	case <-c.timeoutLoopDone:
 	case <-t.C:
+		c.vEv("WgTimeout", 1, 0, 0, 0)
 		return errors.New("failed to wait for timeoutLoop goroutine to exit")
 	}
 
@@ -245,6 +256,7 @@ func (c *Conn) waitGoroutines() error {
 		select {
 		case <-c.closeReadDone:
 		case <-t.C:
+			c.vEv("WgTimeout", 2, 0, 0, 0)
 			return errors.New("failed to wait for close read goroutine to exit")
 		}
 	}
@@ -252,6 +264,7 @@ func (c *Conn) waitGoroutines() error {
 	select {
 	case <-c.closed:
 	case <-t.C:
+		c.vEv("WgTimeout", 3, 0, 0, 0)
 		return errors.New("failed to wait for connection to be closed")
 	}
 
@@ -333,8 +346,10 @@ func (c *Conn) casClosing() bool {
 	defer c.closeMu.Unlock()
 	if !c.closing {
 		c.closing = true
+		c.vEv("CasClosingOK", 0, 0, 0, 0)
 		return true
 	}
+	c.vEv("CasClosingFail", 0, 0, 0, 0)
 	return false
 }
 
